@@ -13,8 +13,17 @@ TFinalize   == IsEv("MFinalize") /\ MFinalize(E.arg) /\ RvOK
 TOpen       == IsEv("MOpen") /\ MOpen /\ RvOK
 TCall       == IsEv("MCall") /\ MCall(E.fn, E.h) /\ RvOK
 TGFL        == IsEv("MGetFunctionList") /\ MGetFunctionList /\ RvOK
+\* n: the count reported (NSlots in every answered case); order: initialised tokens first, the uninitialised one last, no
+\* slot twice; w: bytes written into the caller's buffer (none behind the announced size)
+TSlotList   == IsEv("MSlotList") /\ MSlotList(E.present, E.buf) /\ RvOK
+               /\ (rv' \in {"OK", "BUFFER_TOO_SMALL"} => E.n = E.nslots)
+               /\ (rv' = "OK" /\ E.buf # "null" => E.order /\ E.w = E.nslots)
+               /\ (rv' # "OK" \/ E.buf = "null" => E.w = 0)
+\* exactly n bytes are written by C_GenerateRandom (and they are not the buffer's filler); C_SeedRandom writes nothing
+TRandom     == IsEv("MRandom") /\ MRandom(E.fn, E.h, E.n) /\ RvOK
+               /\ (rv' = "OK" /\ E.fn = "C_GenerateRandom" => E.w = E.n /\ E.fresh) /\ (rv' # "OK" => E.w = 0)
 TInit == Init /\ l = 1 /\ TLCSet(1, 1)
-TNext == TReset \/ TInitialize \/ TFinalize \/ TOpen \/ TCall \/ TGFL
+TNext == TReset \/ TInitialize \/ TFinalize \/ TOpen \/ TCall \/ TGFL \/ TSlotList \/ TRandom
 TSpec == TInit /\ [][TNext]_tvars
 TrackMax == IF l > TLCGet(1) THEN TLCSet(1, l) ELSE TRUE
 TraceAccepted == PrintT(<<"MAXL", TLCGet(1)>>)
